@@ -151,4 +151,24 @@ theorem window_ok (L first last : Nat) (h1 : first < last) (h2 : last < L) :
 
 example : window 5 0 1 = (0, 2) ∧ window 5 3 4 = (2, 4) ∧ window 2 0 1 = (0, 1) := by decide
 
+/-- **C02.1c** (`dag.front_layer()`, the function the front-layer tie compares with qiskit on every run) the model's
+    front of a remaining-instruction list holds, for every wire, at most one instruction, and that instruction is the
+    first one on the wire (the remaining ones keep their order behind it); it is empty only when nothing remains. -/
+theorem front_layer_spec (rem : List Instr) (w : Wire) :
+    (onWire w (front rem)).length ≤ 1 ∧
+    onWire w rem = onWire w (front rem) ++ onWire w (splitFront stayNew [] rem).2 ∧
+    (rem ≠ [] → front rem ≠ []) := by
+  refine ⟨onWire_front_le_one stayNew [] rem w, split_onWire [] rem w, ?_⟩
+  intro hne
+  cases rem with
+  | nil => exact absurd rfl hne
+  | cons i rest =>
+    have h := split_length [] (i :: rest)
+    have h2 := split_rest_lt i rest
+    intro hc
+    unfold front at hc
+    rw [hc] at h
+    simp only [List.length_nil, List.length_cons] at h h2
+    omega
+
 end Yaqs.Layers
